@@ -12,6 +12,7 @@
 import Gotree.Lemmas.C02Readers
 import Gotree.Lemmas.C02Chan
 import Gotree.Lemmas.C02onC01
+import Gotree.Lemmas.C02NewickEq
 
 namespace Gotree.C02
 open Gotree
@@ -30,6 +31,23 @@ theorem newick_no_panic (b : List UInt8) : (Readers.newickOne b).crashed = false
     next to its own model against the code): no panic for any codec and any input -/
 theorem newick_no_panic_C01 (C : Gotree.Newick.Codec) (b : List UInt8) (m : String) :
     Gotree.Newick.parse C (decodeLossy b) ≠ .panic m := OnC01.parse_no_panic C _ m
+
+/-- ★ the two Newick models are observationally equal: C01's `Gotree.Newick.parse` (with the codec made of
+    C02's `ParseFloat` transcription) and C02's `Newick.parse` give, on every byte string, the same outcome
+    class and the same delivered tree — `ok t` ↦ `ok ⟨t, false⟩`, `err` ↦ `err`, `panic` ↦ `panic` — wherever
+    C01's model does not give up with `unrep` (a NaN/±Inf would have to be stored in a `Rat` field). -/
+theorem newick_models_agree (b : List UInt8) :
+    NewickEq.RelOut (Gotree.Newick.parse NewickEq.myCodec (decodeLossy b)) (Newick.parse b) :=
+  NewickEq.parse_agree (decodeLossy b)
+
+/-- … in particular the outcome classes agree -/
+theorem newick_models_same_class (b : List UInt8) :
+    (∀ t, Gotree.Newick.parse NewickEq.myCodec (decodeLossy b) = .ok t → (Newick.parse b).cls = .ok) ∧
+    (∀ m, Gotree.Newick.parse NewickEq.myCodec (decodeLossy b) = .err m → (Newick.parse b).cls = .err) := by
+  have h := newick_models_agree b
+  constructor
+  · intro t ht; rw [ht] at h; simp only [NewickEq.RelOut] at h; rw [h]; rfl
+  · intro m hm; rw [hm] at h; obtain ⟨m', h'⟩ := h; rw [h']; rfl
 
 /-- the Nexus parser neither panics nor hangs, whatever the Newick parser it is given does short of panicking -/
 theorem nexus_parse_total (b : List UInt8) : (∀ m, Nexus.parse b ≠ .panic m) ∧ Nexus.parse b ≠ .hang :=
@@ -86,6 +104,19 @@ theorem channel_progress (s : Chan.Sys Readers.Rec) (h : Chan.done s = false) :
 /-- every step decreases `2·|to send| + |buffer| + [not closed]`: no infinite run under any schedule -/
 theorem channel_no_infinite_run (a : Chan.Actor) (s s' : Chan.Sys Readers.Rec) (h : Chan.step true a s = some s') :
     Chan.mu s' < Chan.mu s := Chan.step_mu true a s s' h
+
+/-- `fileutils.Readln` in a `for err == nil` loop: it returns at most one line per chunk of `ReadLine`
+    (the loop ends; defined without fuel) -/
+theorem readLines_bounded (cs : List Readers.Chunk) : (Readers.readLines cs).length ≤ cs.length := by
+  induction h : cs.length using Nat.strongRecOn generalizing cs with
+  | _ n ih =>
+    rw [Readers.readLines]
+    split
+    · rename_i hf
+      have hlt := Readers.readln_rest_lt cs hf
+      have := ih _ (by omega) (Readers.readln cs).2.2 rfl
+      simp only [List.length_cons]; omega
+    · simp
 
 /-- `cladeToTree` of PhyloXML and Nextstrain on every decoded clade structure -/
 theorem clades_no_panic (ps : List Readers.Clade) (v : String) (n : Readers.NsNode) :
